@@ -45,6 +45,8 @@ Op(e) ==
          /\ Report("SubAccepted", E => NoErr(e))
          /\ subscribed' = E /\ UNCHANGED cur
     [] e.a = "Unsub" -> subscribed' = FALSE /\ UNCHANGED cur
+    \* subscribing to the twin (same instance id, another accessory) is about the twin only
+    [] e.a \in {"SubTwin", "UnsubTwin"} -> UNCHANGED <<cur, subscribed>>
     [] OTHER -> UNCHANGED <<cur, subscribed>>
 List(e) ==
   /\ Report("ShapeRule", e.n = Len(e.kinds) /\ e.idsok)
